@@ -261,3 +261,29 @@ def arim_path(geom, arim, physical=False, attenuation=None, decoy=None, rigid=No
     if decoy is not None:
         path.decoy_rays = arim.ray.Rays(np.zeros((1, 1)), np.zeros((npts - 2, 1, 1), arim.settings.INT), path.to_fermat_path())
     return path
+
+
+def library_path(geom, arim, attenuation=None):
+    """The same Snell-exact ray on interfaces, normal-side flags, kinds and paths built by the LIBRARY
+    (block_in_immersion.make_interfaces / make_paths): flat walls only (every tilt 0), the front wall holds the
+    transmission point and, for a double skip, the second front-wall point; the rays are set by hand."""
+    import arim.models.block_in_immersion as bim
+    g = arim.geometry
+    assert geom["immersion"] and all(w[1] == 0.0 for w in geom["walls"])
+    pts, nlegs = geom["pts"], geom["nlegs"]
+    P3 = lambda q: [float(q[0]), 0.0, float(q[1])]
+    op = lambda arr, name: g.OrientedPoints(g.Points(np.array(arr, float), name), g.default_orientations(g.Points(np.array(arr, float), name)))
+    probe_op = op([P3(pts[0])], "Probe")
+    grid_op = op([P3(pts[-1])], "Grid")
+    front = [P3(pts[1])] + ([P3(pts[3])] if nlegs == 4 else [])
+    front_op = op(front, "Frontwall")
+    back_op = op([P3(pts[2])], "Backwall") if nlegs >= 3 else None
+    couplant, block = _couplant(geom, arim, attenuation), _block(geom, arim, attenuation)
+    interfaces = bim.make_interfaces(couplant, probe_op, front_op, back_op, grid_op)
+    paths = bim.make_paths(block, couplant, interfaces, max_number_of_reflection=nlegs - 2)
+    path = paths["".join(geom["modes"][1:])]
+    interior = np.zeros((nlegs - 1, 1, 1), arim.settings.INT)
+    if nlegs == 4:
+        interior[2, 0, 0] = 1
+    path.rays = arim.ray.Rays(np.zeros((1, 1)), interior, path.to_fermat_path())
+    return path
